@@ -342,6 +342,11 @@ class Gates:
             return self.cv.wait_for(lambda: (what, key) in self.log, timeout)
 
 
+class LayoutError(RuntimeError):
+    """The library did not produce the shard layout the stage asked for (its roll-over rules differ from what the
+    stage relies on): the stage cannot run; this says nothing about the property the stage serves."""
+
+
 def replay_batchmap(paths_nodes, *, lens, P, fmt="fb"):
     """Impose TLC behaviours of BatchMap.tla on the real unshuffled concurrent path of a real dataset whose shard k
     holds lens[k-1] examples. paths_nodes: [(path, nodes, init_id)]. Returns list of (mismatches, observed)."""
@@ -367,7 +372,7 @@ def replay_batchmap(paths_nodes, *, lens, P, fmt="fb"):
         ds = Dataset(tmp / "d")
         shard_paths = [str(ds.path / s.file_infos[0].file_path) for s in ds.shard_info_iterator("train")]
         if [len(ids_of[k]) for k in sorted(ids_of)] != [s.number_of_examples for s in ds.shard_info_iterator("train")]:
-            raise RuntimeError("could not build the requested shard layout")
+            raise LayoutError("could not build the requested shard layout")
         key_of = {p: k for k, p in enumerate(shard_paths, start=1)}
         cls = {"fb": DI.IterateShardFlatBuffer, "npz": DI.IterateShardNP}[fmt]
         orig = cls.process_and_list
